@@ -87,4 +87,100 @@ def chain (p : π) (ops : List (Op κ δ φ)) : Option (Call π κ δ φ) :=
   | some s => embedRange s
   | none => none
 
+/-! ## multi-step use: chain states kept in variables
+
+`auto s = with(p).withKernel(cb);  …  s.withFeatures(cb2).embedUsing(data);` — every member function of the state
+classes is `const` and returns a new state object **by value**, holding its own copies of the parameters and of the
+callbacks (member-initialiser lists above), so a state is a *value*: it can be stored, copied, outlive the temporaries
+it was built from, be finished more than once and be extended more than once.  The statements below are the
+operations of such a use; `Sem` is the interface shared by the state machine itself (`stateSem`: what the classes
+store and hand to `tapkee::embed`) and the bookkeeping of *what a variable was given* (`givenSem`: the parameters and
+the list of attachments, nothing else).  Using a variable that holds no state (never defined, destroyed) is undefined
+behaviour / does not compile: `none`. -/
+
+abbrev Var := Nat
+
+inductive Stmt (π κ δ φ : Type) where
+  | start (v : Var) (p : π)                               -- auto v = tapkee::with(<temporary ParametersSet p>);
+  | attach (v w : Var) (o : Op κ δ φ)                     -- auto w = v.withX(<temporary callback>);   (v stays usable)
+  | copy (v w : Var)                                      -- auto w = v;
+  | destroy (v : Var)                                     -- v goes out of scope / `delete`
+  | finish (v : Var)                                      -- v.embedRange(begin, end) / v.embedUsing(container)
+  | finishMatrix (v : Var) (ek : κ) (ed : δ) (ef : φ)     -- v.embedUsing(matrix)  (ParametersInitializedState only)
+  | scribble                                              -- unrelated code runs, the stack is reused
+  deriving Repr
+
+def Env (α : Type) := Var → Option α
+def Env.empty {α : Type} : Env α := fun _ => none
+def Env.set {α : Type} (e : Env α) (v : Var) (a : α) : Env α := fun w => if w = v then some a else e w
+def Env.unset {α : Type} (e : Env α) (v : Var) : Env α := fun w => if w = v then none else e w
+
+/-- what a variable holds (`α`) and what a finished chain yields (`β`) -/
+structure Sem (π κ δ φ α β : Type) where
+  start : π → α
+  attach : α → Op κ δ φ → Option α
+  fin : α → Option β
+  finM : α → κ → δ → φ → Option β
+
+/-- the state classes themselves -/
+def stateSem : Sem π κ δ φ (State π κ δ φ) (Call π κ δ φ) where
+  start := .P
+  attach := step
+  fin := embedRange
+  finM := fun s ek ed ef => match s with
+    | .P p => some (embedMatrix p ek ed ef)
+    | _ => none
+
+/-- only what was given along the chain: the parameters and the attachments, in the order they were made;
+    `embedUsing(matrix)` gives the three eigen callbacks of the matrix -/
+def givenSem : Sem π κ δ φ (π × List (Op κ δ φ)) (π × List (Op κ δ φ)) where
+  start := fun p => (p, [])
+  attach := fun g o => some (g.1, g.2 ++ [o])
+  fin := some
+  finM := fun g ek ed ef => match g.2 with
+    | [] => some (g.1, [.withKernel ek, .withDistance ed, .withFeatures ef])
+    | _ :: _ => none
+
+variable {α β : Type}
+
+/-- one statement: the variables and the results of the finished chains so far (oldest first) -/
+def execStmt (S : Sem π κ δ φ α β) (e : Env α) (outs : List β) : Stmt π κ δ φ → Option (Env α × List β)
+  | .start v p => some (e.set v (S.start p), outs)
+  | .attach v w o => match e v with
+    | some a => match S.attach a o with
+      | some a' => some (e.set w a', outs)
+      | none => none
+    | none => none
+  | .copy v w => match e v with
+    | some a => some (e.set w a, outs)
+    | none => none
+  | .destroy v => match e v with
+    | some _ => some (e.unset v, outs)
+    | none => none
+  | .finish v => match e v with
+    | some a => match S.fin a with
+      | some b => some (e, outs ++ [b])
+      | none => none
+    | none => none
+  | .finishMatrix v ek ed ef => match e v with
+    | some a => match S.finM a ek ed ef with
+      | some b => some (e, outs ++ [b])
+      | none => none
+    | none => none
+  | .scribble => some (e, outs)
+
+def execFrom (S : Sem π κ δ φ α β) (e : Env α) (outs : List β) : List (Stmt π κ δ φ) → Option (Env α × List β)
+  | [] => some (e, outs)
+  | st :: rest => match execStmt S e outs st with
+    | some (e', outs') => execFrom S e' outs' rest
+    | none => none
+
+/-- the calls `tapkee::embed` receives, one per finished chain, in program order -/
+def exec (prog : List (Stmt π κ δ φ)) : Option (List (Call π κ δ φ)) :=
+  (execFrom stateSem Env.empty [] prog).map (·.2)
+
+/-- what each finished chain had been given: (parameters, attachments) -/
+def given (prog : List (Stmt π κ δ φ)) : Option (List (π × List (Op κ δ φ))) :=
+  (execFrom givenSem Env.empty [] prog).map (·.2)
+
 end TapkeeVerif.Chain
